@@ -61,6 +61,22 @@ func (m *ClientMap) SendQueue(addr net.Addr) chan []byte {
 	return m.inner.SendQueue(addr, time.Now())
 }
 
+// trySend queues p on the send queue corresponding to addr, creating the queue
+// if necessary, without blocking. It reports whether p was queued. The send
+// happens while the map is locked, so that it cannot race with the expiry of
+// the client record, which closes the queue.
+func (m *ClientMap) trySend(addr net.Addr, p []byte) bool {
+	m.lock.Lock()
+	queued := false
+	select {
+	case m.inner.SendQueue(addr, time.Now()) <- p:
+		queued = true
+	default:
+	}
+	m.lock.Unlock()
+	return queued
+}
+
 // clientMapInner is the inner type of ClientMap, implementing heap.Interface.
 // byAge is the backing store, a heap ordered by LastSeen time, to facilitate
 // expiring old client records. byAddr is a map from addresses (i.e., ClientIDs)
